@@ -280,18 +280,27 @@ func c01Stateful(r *Run, c c01Config) {
 	scn := Scenario{Name: "c01", Ledger: BaseLedger(), Genesis: g}
 	w := scn.Build(KindDB)
 	var pre []Action
+	reachable := true
 	do := func(a Action) {
 		o := w.Apply(a)
 		pre = append(pre, a)
 		if !o.OK {
-			r.HarnessError("preamble %s failed: %s%s", a.Desc, o.Err, o.PanicVal)
+			reachable = false
 		}
 	}
+	defer func() {
+		if !reachable {
+			r.Truncate("C01 stateful: configuration " + c.String() + " cannot be reached by transactions on this tree")
+		}
+	}()
 	for _, a := range full[1:] {
 		do(Act("enableAttester("+attName(a.Attester)+") by A1", &cctptypes.MsgEnableAttester{From: AttMgr.Str, Attester: a.Attester}))
 	}
 	if c.T != 1 {
 		do(Act(fmt.Sprintf("updateSignatureThreshold(%d) by A1", c.T), &cctptypes.MsgUpdateSignatureThreshold{From: AttMgr.Str, Amount: c.T}))
+	}
+	if !reachable {
+		return
 	}
 	base := w.Dump()
 	r.States++
